@@ -148,7 +148,7 @@ def functions_for(tier):
     return {path: names}
 
 
-_MODE = {"functions": {}, "contexts": False, "raw": False}
+_MODE = {"functions": {}, "contexts": False, "raw": False, "opcodes": False}
 
 
 def run_schedule(files, progs, schedule):
@@ -159,7 +159,7 @@ def run_schedule(files, progs, schedule):
 
         impl_prog.run_program([{"op": "ctx", "body": [{"op": "check", "l": arr_type("z"), "x": arr_val([1])}], "exit": "ret"}], "typeguard", None)
         ctxs = [contextvars.copy_context() for _ in progs]
-    sch = Scheduler(files, [runner(p) for p in progs], schedule, functions=_MODE["functions"], contexts=ctxs, raw_threads=_MODE["raw"])
+    sch = Scheduler(files, [runner(p) for p in progs], schedule, functions=_MODE["functions"], contexts=ctxs, raw_threads=_MODE["raw"], opcodes=_MODE["opcodes"])
     res = sch.run()
     if sch.failed:
         raise InfraError("scheduler: " + sch.failed)
@@ -190,7 +190,8 @@ def explore(out, files, progs, solo, schedules, tag, npoints):
                 out.violation(
                     f"isolation:{tag}:thread{t}:{kind}",
                     f"thread {t} of workload set {tag} observes something else under schedule {sched} than when run alone: {first_diff(got, want)}",
-                    {"workloads": progs, "schedule": sched, "thread": t, "interleaved": got, "alone": want, "tier_files": "all" if len(files) > 1 else "_storage.py"},
+                    {"workloads": progs, "schedule": sched, "thread": t, "interleaved": got, "alone": want, "tier_files": "all" if len(files) > 1 else "_storage.py",
+                     "opcodes": bool(_MODE["opcodes"]), "with_functions": bool(_MODE["functions"]), "contexts": _MODE["contexts"], "raw": _MODE["raw"]},
                 )
                 return False
     return True
@@ -266,10 +267,108 @@ def run(tier, seed, out, drv, facts):
             explore(out, files, progs, solo, rng.sample(schedules, min(len(schedules), 300 if thorough else 60)), tag + "@raw", npoints)
         finally:
             _MODE["raw"] = False
+        broken = getattr(out, "proof", None) is not None and not out.proof.ok
+        if tag == "w0w1w2" or thorough:
+            opcode_phase(out, [os.path.join(REPO, "jaxtyping", "_storage.py")], progs, tag, rng, everything=broken or thorough)
+
+
+def hot_lines(paths):
+    """lines on which a thread writes something every thread can see: a name declared `global`, or an attribute / item of a
+    module-level object that is not a `threading.local` — (file, line) for every line of such a statement. On the
+    unchanged tree there is none in `_storage.py`."""
+    import ast
+
+    hot = set()
+    for path in paths:
+        with open(path) as fh:
+            tree = ast.parse(fh.read())
+        local_objs = set()
+        shared_objs = set()
+        for st in tree.body:
+            if isinstance(st, ast.Assign) and len(st.targets) == 1 and isinstance(st.targets[0], ast.Name):
+                v = st.value
+                src = ast.unparse(v)
+                if isinstance(v, ast.Call) and ("local" in src.split("(")[0]):
+                    local_objs.add(st.targets[0].id)
+                elif isinstance(v, (ast.List, ast.Dict, ast.Set, ast.Call, ast.Constant)):
+                    shared_objs.add(st.targets[0].id)
+        for fn in [n for n in ast.walk(tree) if isinstance(n, (ast.FunctionDef, ast.AsyncFunctionDef))]:
+            globs = {n_ for g in ast.walk(fn) if isinstance(g, ast.Global) for n_ in g.names}
+            for st in ast.walk(fn):
+                if not isinstance(st, (ast.Assign, ast.AugAssign, ast.AnnAssign, ast.Expr, ast.Delete)):
+                    continue
+                targets = st.targets if isinstance(st, (ast.Assign, ast.Delete)) else [st.target] if isinstance(st, (ast.AugAssign, ast.AnnAssign)) else []
+                hit = False
+                for t in targets:
+                    base = t
+                    while isinstance(base, (ast.Attribute, ast.Subscript)):
+                        base = base.value
+                    if isinstance(t, ast.Name) and t.id in globs:
+                        hit = True
+                    elif isinstance(t, (ast.Attribute, ast.Subscript)) and isinstance(base, ast.Name) and base.id in shared_objs and base.id not in local_objs:
+                        hit = True
+                if isinstance(st, ast.Expr) and isinstance(st.value, ast.Call) and isinstance(st.value.func, ast.Attribute):
+                    base = st.value.func.value
+                    while isinstance(base, (ast.Attribute, ast.Subscript)):
+                        base = base.value
+                    if isinstance(base, ast.Name) and base.id in shared_objs and st.value.func.attr in ("append", "pop", "add", "remove", "clear", "update", "setdefault", "extend", "insert", "discard", "popitem"):
+                        hit = True
+                if hit:
+                    for ln in range(st.lineno, (st.end_lineno or st.lineno) + 1):
+                        hot.add((path, ln))
+    return hot
+
+
+def opcode_phase(out, files, progs, tag, rng, everything):
+    """(6) writes to process-wide state split between two BYTECODES: thread A is stopped inside such a statement (after the
+    read, before the write), thread B runs up to any of its own yield points, A finishes, B finishes. Only lines that
+    write shared state are split; the unchanged tree has none in `_storage.py`, and then there is nothing to do."""
+    hot = hot_lines(files)
+    out.count("shared_write_lines", len(hot))
+    if not hot:
+        return
+    _MODE["opcodes"] = hot
+    try:
+        n = len(progs)
+        solo, npoints, hots = [], [], []
+        # CPython 3.12 starts delivering per-instruction events for a code object only after a frame of it has asked for
+        # them once (`f_trace_opcodes`) and tracing has been installed again: one discarded pass first
+        for t in range(n):
+            run_schedule(files, [progs[t]], [(0, None)])
+        for t in range(n):
+            res, sch = run_schedule(files, [progs[t]], [(0, None)])
+            solo.append(res[0])
+            npoints.append(sch.points[0])
+            hots.append([h for h in sch.hot_hits if h is not None])
+        out.count("opcode_yield_points_" + tag, sum(len(h) for h in hots))
+        schedules = []
+        for a in range(n):
+            for b in range(n):
+                if b == a:
+                    continue
+                rest = [x for x in range(n) if x not in (a, b)]
+                for p in hots[a]:
+                    qs = range(1, npoints[b])
+                    if not everything:
+                        qs = rng.sample(list(qs), min(len(qs), 40))
+                    for q in qs:
+                        schedules.append([(a, p), (b, q), (a, None), (b, None)] + [(x, None) for x in rest])
+        cap = 6000 if everything else 400
+        if len(schedules) > cap:
+            schedules = rng.sample(schedules, cap)
+        explore(out, files, progs, solo, schedules, tag + "@opcode", npoints)
+    finally:
+        _MODE["opcodes"] = False
 
 
 def replay(rep, out, drv, facts):
     files = files_for("thorough" if rep.get("tier_files") == "all" else "quick")
     progs = rep["workloads"]
+    _MODE["opcodes"] = hot_lines(files) if rep.get("opcodes") else False
+    _MODE["functions"] = functions_for("quick") if rep.get("with_functions", rep.get("tier_files") != "all") else {}
+    _MODE["contexts"], _MODE["raw"] = bool(rep.get("contexts")), bool(rep.get("raw"))
+    if _MODE["opcodes"]:
+        for p_ in progs:
+            run_schedule(files, [p_], [(0, None)])      # see opcode_phase: a discarded pass switches the instruction events on
     solo = [run_schedule(files, [p], [(0, None)])[0][0] for p in progs]
     explore(out, files, progs, solo, [[tuple(s) for s in rep["schedule"]]], "replay", None)
